@@ -93,6 +93,7 @@ type FnExec struct {
 	epoch      int
 	pureMode   bool
 	subSeen    map[*Term]bool
+	symSeen    map[string]bool
 	rangeMaps  map[*Term]rangeMap
 	atomicLocks bool
 	epochSerial map[int]int // allocation serial at the time each heap epoch began
@@ -100,6 +101,7 @@ type FnExec struct {
 	streqCache  map[[6]int]*Term
 	noAssume    bool // suppress assumption generation (while describing inputs for models)
 	pendingAxiom map[string]pendingFam
+	noOpenInv   bool // do not instantiate representation invariants for values read under quantifiers
 }
 
 type rangeMap struct {
